@@ -1,6 +1,6 @@
 (* Statement pins for C20: compiled on every check run against the built .vo files. *)
 From SV Require Import Base.Prelude Model.Keyspace Proofs.Keyspace_proofs.
-Open Scope N_scope.
+Open Scope nat_scope.
 From SV Require Import Props.C20.
 
 Check C20_name :
@@ -17,7 +17,7 @@ Check C20_name_err :
 Check C20_statement :
   forall k, valid_name (fst k) ->
   parse_use (use_statement k) = Some k /\
-  forall c, In c (use_statement k) -> In c alphabet \/ c = 32 \/ c = dquote.
+  forall c, In c (use_statement k) -> In c alphabet \/ c = 32%N \/ c = dquote.
 Check C20_verify_result :
   forall k r,
   verify_result k r = VOk <-> exists n, r = RSetKeyspace n /\ map to_lower n = map to_lower (fst k).
@@ -33,6 +33,47 @@ Check C20_aggregate_err :
   exists l1 l2, l = l1 ++ CErr t :: l2 /\ forallb (fun x => negb (is_err x)) l1 = true.
 Check C20_aggregate_panic :
   forall l, use_keyspace_result l = APanic <-> l = [].
+Check C20_inv :
+  forall k0 s k c,
+  reachable k0 s -> cur s = Some k -> ph s c = InPool -> alive s c = true ->
+  In k (told s c) \/
+  (exists r u, cur_uid s = Some u /\ In r (pending s) /\ uid r = u /\ uks r = k /\
+               In c (cov r) /\ stat r c = NotSent) \/
+  (exists u, cur_uid s = Some u /\ In (u, PAErr) (log s)).
+Check C20_setup_first :
+  forall k0 s k c,
+  reachable k0 s -> ph s c = Setting k -> In k (told s c).
+Check C20_after_success :
+  forall k0 ls1 s1 raw cs s2 ls2 s3 a c,
+  run (init k0) ls1 = Some s1 -> pending s1 = [] ->
+  valid_name raw -> step s1 (UseKeyspace raw cs) = Some s2 ->
+  no_use ls2 = true -> run s2 ls2 = Some s3 ->
+  In (unext s1, a) (log s3) -> a <> PAErr ->
+  ph s3 c = InPool -> alive s3 c = true ->
+  wire s3 c = [] /\ matchesb s3 c (raw, cs) = true.
+Check C20_fresh_pool :
+  forall k ls s c,
+  no_use ls = true -> run (init (Some k)) ls = Some s ->
+  ph s c = InPool -> alive s c = true ->
+  wire s c = [] /\ matchesb s c k = true.
+Check C20_name_rejected :
+  forall s raw cs, ~ valid_name raw -> step s (UseKeyspace raw cs) = Some s.
+Check C20_only_valid_names_sent :
+  forall k0 s k c,
+  (forall k, k0 = Some k -> valid_name (fst k)) -> reachable k0 s ->
+  In k (told s c) -> valid_name (fst k) /\ parse_use (use_statement k) = Some k.
+Check C20_new_nodes :
+  forall n0 ls k,
+  used (wrun (winit n0) ls) = Some k ->
+  exists pre u t, fans (wrun (winit n0) ls) = pre ++ [(u, k, t)] /\
+    forall n, In n (nodes (wrun (winit n0) ls)) -> In n t \/ born (wrun (winit n0) ls) n = Some k.
+Check C20_accept_sound :
+  forall k0 t1 u k t2 t3 q t4 x t5,
+  accept_trace k0 (t1 ++ ECall u k :: t2 ++ ERet u true :: t3 ++ EStart q :: t4 ++ EFrame q x :: t5) = true ->
+  pending_calls t1 [] = [] ->
+  no_call t2 = true -> no_call t3 = true -> no_call t4 = true ->
+  forallb (fun e => negb (starts q e)) t4 = true ->
+  x = Some (canon k).
 Print Assumptions C20_name.
 Print Assumptions C20_name_err.
 Print Assumptions C20_statement.
@@ -41,3 +82,11 @@ Print Assumptions C20_verify_honest.
 Print Assumptions C20_aggregate_ok.
 Print Assumptions C20_aggregate_err.
 Print Assumptions C20_aggregate_panic.
+Print Assumptions C20_inv.
+Print Assumptions C20_setup_first.
+Print Assumptions C20_after_success.
+Print Assumptions C20_fresh_pool.
+Print Assumptions C20_name_rejected.
+Print Assumptions C20_only_valid_names_sent.
+Print Assumptions C20_new_nodes.
+Print Assumptions C20_accept_sound.
